@@ -104,7 +104,7 @@ def accessors(ctx, facts, cfg):
         def visit(e, conds, env):
             if e.get('k') == 'call' and e['f'].get('k') == 'path' and (e['f'].get('path') or '').endswith('::Some') and e.get('ty') == 'std::option::Option<&[u8]>':
                 somes.append((e, conds, dict(env)))
-        core.PathWalker(visit).walk_fn(fn)
+        core.PathWalker(visit, facts).walk_fn(fn)
         if len(somes) != 1:
             ctx.violation('C12.a-accessor-atoms', 'some-sites', '%s has %d `Some(..)` exits, expected one' % (p, len(somes)), site=fn.span, fn=p, cfg=cfg)
             continue
